@@ -382,6 +382,8 @@ fn centred_stats(w: &World, level: &ParmsID, comps: &[Vec<u64>], div_t: bool) ->
 
 struct FShared {
     world: World,
+    /// distinguishes the contexts of one history (explicit generator seeds must not coincide across them)
+    ctx_tag: u64,
 }
 
 fn exec_fop(op: &FOp, sh: &FShared, rng: &mut Prng) -> Produced {
@@ -481,7 +483,7 @@ fn exec_fop(op: &FOp, sh: &FShared, rng: &mut Prng) -> Produced {
             }
         }
         FOp::EncSymSameState { seed } => {
-            let s = PRNGSeed(Prng::new(*seed).bytes64());
+            let s = PRNGSeed(Prng::new(*seed ^ sh.ctx_tag.wrapping_mul(0x9E37_79B9_7F4A_7C15)).bytes64());
             let pl = w.random_plain(rng);
             let a = w.encryptor.encrypt_symmetric_new_with_u_prng(&pl, &mut BlakeRNG::from_seed(s));
             let b = w.encryptor.encrypt_symmetric_new_with_u_prng(&pl, &mut BlakeRNG::from_seed(s));
@@ -495,7 +497,7 @@ fn exec_fop(op: &FOp, sh: &FShared, rng: &mut Prng) -> Produced {
             p.masks.push(mask_hash(&a, ctx));
         }
         FOp::EncPkSameState { seed } => {
-            let s = PRNGSeed(Prng::new(*seed).bytes64());
+            let s = PRNGSeed(Prng::new(*seed ^ sh.ctx_tag.wrapping_mul(0x9E37_79B9_7F4A_7C15)).bytes64());
             let a = w.encryptor.encrypt_zero_new_with_u_prng(&mut BlakeRNG::from_seed(s));
             let b = w.encryptor.encrypt_zero_new_with_u_prng(&mut BlakeRNG::from_seed(s));
             // same u => c1 - c1' is a difference of two small errors (after removing t for BGV)
@@ -599,10 +601,28 @@ fn run_freshness(scn: &FScn) -> Result<(Vec<(String, String, String)>, u64, u64)
     let scheme = gen::scheme_name(scn.spec.scheme);
     let build = || gen::build_world(&scn.spec);
     let world = if scn.real_entropy { build()? } else { gen::with_entropy(scn.ent, |_| build())? };
-    let sh = Arc::new(FShared { world });
+    let sh = Arc::new(FShared { world, ctx_tag: 0 });
     let mut all: Vec<(usize, usize, Produced)> = Vec::new();
     let draws;
-    if scn.threads.len() == 1 {
+    if scn.real_entropy {
+        // the real entropy path (no provider installed): the same operation list on TWO contexts of
+        // the same process; nothing may be shared within a context nor across the two
+        let sh_b = Arc::new(FShared { world: gen::build_world(&scn.spec)?, ctx_tag: 1 });
+        for (t, shared) in [&sh, &sh_b].into_iter().enumerate() {
+            let mut rng = Prng::new(scn.msg_seed);
+            for (i, op) in scn.threads[0].iter().enumerate() {
+                let p = catch_res(|| exec_fop(op, shared, &mut rng))?;
+                all.push((t, i, p));
+            }
+        }
+        // the two long-lived key generators themselves
+        if scn.spec.n >= 32 {
+            let (a, b) = (util::h64_u64s(sh.world.sk.data()), util::h64_u64s(sh_b.world.sk.data()));
+            all.push((0, 1000, Produced { what: "context A's key generator".into(), masks: vec![], seeds: vec![], secret: Some(a), pair: None, noise: None, same_c0: None, expand_diff: None }));
+            all.push((1, 1000, Produced { what: "context B's key generator".into(), masks: vec![], seeds: vec![], secret: Some(b), pair: None, noise: None, same_c0: None, expand_diff: None }));
+        }
+        draws = 0;
+    } else if scn.threads.len() == 1 {
         let mut rng = Prng::new(scn.msg_seed);
         let ops = scn.threads[0].clone();
         let sh2 = sh.clone();
@@ -955,6 +975,22 @@ fn run_stats(moduli: &[u64], seed: u64) -> Vec<(String, String, String)> {
             }
         }
     }
+    // every residue of a small modulus must be reachable (a mask that is one bit short loses q-1)
+    for (j, &q) in moduli.iter().enumerate() {
+        if q <= 2048 {
+            let mut seen = vec![false; q as usize];
+            let rounds = ((40 * q as usize) + n - 1) / n; // >= 40 q draws: P(some residue missing) <= q e^-40
+            for _ in 0..rounds.max(1) {
+                sample::uniform(&mut g, &parms, &mut dest);
+                for i in 0..n {
+                    seen[dest[j * n + i] as usize] = true;
+                }
+            }
+            if let Some(miss) = seen.iter().position(|s| !s) {
+                bad.push(("samples/uniform/residue-unreachable".into(), "residue-unreachable".into(), format!("uniform sampling modulo {} never produced the residue {} in {} draws", q, miss, n * rounds.max(1))));
+            }
+        }
+    }
     for (j, &q) in moduli.iter().enumerate() {
         let cells = if q <= 64 { q as usize } else { 64 };
         let exp: Vec<f64> = (0..cells)
@@ -977,13 +1013,30 @@ fn run_stats(moduli: &[u64], seed: u64) -> Vec<(String, String, String)> {
     bad
 }
 
+/// Moduli next to powers of two (2^k + 1, 2^k - 1, 2^k + 3 ...): rejection samplers and masks slip there.
+fn special_modulus(rng: &mut Prng, min_bits: usize) -> u64 {
+    loop {
+        let k = rng.range(min_bits.max(1), 59) as u32;
+        let d: i64 = *rng.pick(&[1i64, 1, 1, -1, 3, -3]);
+        let v = (1i64 << k) + d;
+        if v >= 2 && (64 - (v as u64).leading_zeros()) as usize >= min_bits {
+            return v as u64;
+        }
+    }
+}
+
 fn gen_moduli(rng: &mut Prng, min_bits: usize) -> Vec<u64> {
     let k = rng.range(1, 6);
     let mut v: Vec<u64> = Vec::new();
-    // the first modulus is large enough to represent +-21 unambiguously in most runs
-    for i in 0..k {
-        let bits = if i == 0 && rng.chance(3, 4) { rng.range(8.max(min_bits), 60) } else { rng.range(min_bits, 60) };
+    if rng.chance(1, 3) {
+        let m = special_modulus(rng, min_bits);
+        v.push(m);
+    }
+    for i in v.len()..k {
+        // the first modulus is large enough to represent +-21 unambiguously in most runs; the bit
+        // size is redrawn on every attempt (there are only two 2-bit moduli: a fixed size could spin)
         let m = loop {
+            let bits = if i == 0 && rng.chance(3, 4) { rng.range(8.max(min_bits), 60) } else { rng.range(min_bits, 60) };
             let cand = (1u64 << (bits - 1)) + rng.below(1u64 << (bits - 1));
             let cand = if bits > 2 { cand | 1 } else { cand };
             if cand >= 2 && !v.contains(&cand) {
@@ -1072,7 +1125,7 @@ fn one_run(i: usize, run_seed: u64, tier: Tier) -> RunOut {
             }
         }
         7..=10 => {
-            let real = i % 16 == 10 && (i / 16) % 8 == 0;
+            let real = i % 16 == 10;
             let Some(scn) = (0..6).find_map(|_| gen_fscn(&mut rng, run_seed, real)) else {
                 out.degenerate = true;
                 return out;
@@ -1150,7 +1203,12 @@ fn one_run(i: usize, run_seed: u64, tier: Tier) -> RunOut {
                     out.violations.push(viol(&k, &c, &d, replay.clone()));
                 }
             } else {
-                let moduli = gen_moduli(&mut rng, 7);
+                let mut moduli = gen_moduli(&mut rng, 7);
+                // plus one small or special modulus for the residue-coverage test of the uniform sampler
+                let extra = if rng.coin() { special_modulus(&mut rng, 2) } else { 2 + rng.below(300) };
+                if !moduli.contains(&extra) && moduli.len() < 6 {
+                    moduli.push(extra);
+                }
                 let seed = rng.next_u64() >> 1;
                 out.count("evaluations", 1);
                 out.count("part3.chi_square_batches", 1);
